@@ -10,7 +10,12 @@ from bounded import zonesweep
 def kf_same_tz_order(fl):
     """known finding C11-same-tz-order: two aware values sharing one tzinfo object are ordered by wall clock
     (CPython's rule), which inside a repeated hour is not the order of their instants"""
-    return fl.get("check") == "ordering_is_ordering_of_instants" and fl.get("same_tzinfo_object") is True and fl.get("in_repeated_interval") is True
+    if fl.get("check") == "ordering_is_ordering_of_instants":
+        return fl.get("same_tzinfo_object") is True and fl.get("in_repeated_interval") is True
+    # the same rule seen from the twins: two native values of one ZoneInfo object are ordered by wall clock, while a pendulum
+    # value and a native one carry different tzinfo objects and are ordered by instant - inside a repeated interval, with the two
+    # values on different offsets, the mixed comparison therefore differs from the all-native one
+    return fl.get("check") in ("cmp<", "cmp<=", "cmp>") and fl.get("in_repeated_interval") is True and fl.get("same_zone") is True and fl.get("offsets_differ") is True
 
 
 def kf_pep495_eq(fl):
